@@ -91,6 +91,9 @@ impl TestRunnerAdapter {
                         }
 
                         let result = thread_runner.write().unwrap().execute_instruction();
+                        // (only the instruction the machine was resumed on is exempt from the breakpoint check: an
+                        // instruction that branches to itself has to hit its breakpoint again)
+                        last_checked_pc = None;
                         drop(state);
                         #[cfg(feature = "verif")]
                         crate::verif::sched_point("M2", -1, -1);
